@@ -190,23 +190,24 @@ CLAIMED["C12"] = (
 
 # Clauses added after the seeded-defect rounds and the exploratory variants (DESIGN.md sections 8.1-8.3).
 EXTRA = {
- "C01": " Also decides that only Slot.Set writes the handler table and that every operand a reactor handler reads (buffer, destination, mode) is armed together with the callback before any call that can park the operation; that every constructor stores the new object into its reactors' back-pointers; and, per path and per call site of a shared cancel helper, that a parked operation is completed at most once, after testing and removing the interest of its own direction.",
- "C03": " Also decides that a posted handler is counted before the mutex that publishes it is released, and that the poller's SetRead/DelRead change the read interest bit and SetWrite/DelWrite the write interest bit (seen through shared helpers). Also decides that EPOLL_CTL_DEL is issued only under Slot.Events == 0 read after the update and EPOLL_CTL_ADD only when the previous mask was 0.",
- "C04": " Also decides that the read interest is registered only after the timerfd was armed, that Cancel flags the repeating closure in every live state, that ScheduleOnce clears the flag only on paths that arm, and that the immediate callback runs only on a ready timer; that Cancel records stateReady exactly on the success edge of Unset and Close records stateClosed on every path of an open timer.",
- "C05": " Also decides that the batch loop covers index 0..len-1 in steps of one. Also decides (R6) that a *Slot handed out by an accessor or passed to a registration is never the address of a field of a by-value copy (the waker's registration stays reachable from the poller).",
- "C07": " Also decides that an incomplete payload unconditionally reserves at least the declared payload length. Also decides that setPayloadLength clears the previous length bits of byte 1 on every path before it ors a code in.",
+ "C01": " Also decides that only Slot.Set writes the handler table and that every operand a reactor handler reads (buffer, destination, mode) is armed together with the callback before any call that can park the operation; that every constructor stores the new object into its reactors' back-pointers; and, per path and per call site of a shared cancel helper, that a parked operation is completed at most once, after testing and removing the interest of its own direction. Also decides that Cancel reaches a completion for every direction the type parks operations in, that the poll loop dispatches both directions, and that constructors reporting through a callback (NewAsyncAdapter) discharge it exactly once.",
+ "C03": " Also decides that a posted handler is counted before the mutex that publishes it is released, and that the poller's SetRead/DelRead change the read interest bit and SetWrite/DelWrite the write interest bit (seen through shared helpers). Also decides that EPOLL_CTL_DEL is issued only under Slot.Events == 0 read after the update and EPOLL_CTL_ADD only when the previous mask was 0. Also decides that every recorded change of Slot.Events that is reported as successful is followed by epoll_ctl on that path.",
+ "C04": " Also decides that the read interest is registered only after the timerfd was armed, that Cancel flags the repeating closure in every live state, that ScheduleOnce clears the flag only on paths that arm, and that the immediate callback runs only on a ready timer; that Cancel records stateReady exactly on the success edge of Unset and Close records stateClosed on every path of an open timer. Also decides that a schedule on a timer that is not ready returns an error, that ScheduleOnce arms the internal timer and runs the callback (on expiry and at once), and that Timer.Set registers the read interest.",
+ "C05": " Also decides that the batch loop covers index 0..len-1 in steps of one. Also decides (R6) that a *Slot handed out by an accessor or passed to a registration is never the address of a field of a by-value copy (the waker's registration stays reachable from the poller). Also decides that the queue mutex is released on every path of every function that takes it.",
+ "C07": " Also decides that an incomplete payload unconditionally reserves at least the declared payload length. Also decides that setPayloadLength clears the previous length bits of byte 1 on every path before it ors a code in. Also decides that every Data()[:k] of the decoder follows a PrepareRead(k) that returned nil, that a failed stage returns its error, and that an incomplete payload reserves room at all.",
  "C08": " Also decides that the transitions of the closing handshake exist (Active->ClosedByUs/ClosedByPeer, ClosedByUs->CloseAcked, ->Terminated). Also decides that CodecConn hands the error of a failed transport read to its caller / callback unchanged (the stream recognises the end of the transport by err == io.EOF).",
- "C09": " Also decides that PrepareRead grants n only under n <= ReadLen() or after Commit(n-ReadLen()) under n-ReadLen() <= WriteLen(), that the memmove tail of Consume/Discard starts exactly the shifted amount above its destination, and exact amounts/bounds of Save, Reset, UnreadByte/ShrinkBy, Write*, Claim/ClaimFixed and the save-area validator (canonical comparison forms).",
+ "C09": " Also decides that PrepareRead grants n only under n <= ReadLen() or after Commit(n-ReadLen()) under n-ReadLen() <= WriteLen(), that the memmove tail of Consume/Discard starts exactly the shifted amount above its destination, and exact amounts/bounds of Save, Reset, UnreadByte/ShrinkBy, Write*, Claim/ClaimFixed and the save-area validator (canonical comparison forms). Also decides that Read consumes exactly the count it copied, that DiscardAll discards [0, SaveLen()) and that UnreadByte/ShrinkBy move wi.",
+ "C10": " Also decides that the chunk Commit returns starts at the cursor of the region it was attached to.",
  "C11": " Also decides that the mapping routine is invoked once with each of the two addresses.",
  "C12": " Also decides that reactor handlers leave the reactor's buffer/destination/callback alone, that the destination of a datagram write is computed from the argument on that call, and that a net.IP copied into a 4-byte kernel address goes through To4(). Also decides that the exported membership entry points hand the group and source derived from their own arguments to the per-family function.",
- "C13": " Also decides that the poller-interest removal and slot-table deregistration of every Close run behind its once-guard, and that the failed websocket handshake hands its connection to handshake(), which closes it after dial returned.",
+ "C13": " Also decides that the poller-interest removal and slot-table deregistration of every Close run behind its once-guard, and that the failed websocket handshake hands its connection to handshake(), which closes it after dial returned. Also decides that every field an acquisition was stored into is released by its owner's Close (poller.waker, sockets, timerfd, mappings), that Stream.CloseNextLayer closes the dialed connection, and that Destroy forgets the mapping exactly on munmap's success edge.",
  "C14": " Also decides (R2) that an object built on a descriptor from open(2) has a deferral route that does not depend on the epoll registration - violated by file.scheduleRead/scheduleWrite for regular files (D28, known finding).",
  "C15": " Also decides that handleFrame returns a check's error in every state and that the framing-violation errors are raised only by the checks handleFrame runs.",
- "C16": " Also decides (R6) that a frame is encoded into the write buffer once - violated by the blocking Flush after a failed transport write (D29, known finding). Also decides that Encode reserves, commits and drops on the buffer WriteTo serialised into.",
+ "C16": " Also decides (R6) that a frame is encoded into the write buffer once - violated by the blocking Flush after a failed transport write (D29, known finding). Also decides that Encode reserves, commits and drops on the buffer WriteTo serialised into. Also decides that Frame.Reset zeroes the header, SetOpcode replaces the opcode bits, each SetX sets OpcodeX, and the payload is masked whenever it is not empty.",
  "C17": " Also decides that the frame leaves the pending queue before its transport write starts. Also decides (R4) that the encode/write paths of the codecs and of CodecConn call no ByteBuffer method on the read buffer and the decode/read paths none on the write buffer.",
- "C18": " Also decides that the terminator is searched in a window overlapping earlier reads, that the handshake buffer is cut to the received bytes before it is parsed, that the hasher is reset before the key is hashed, and (R7, over the call graph with callback-parameter propagation) that nothing executing inside the RawConn.Control callback closes a connection.",
- "C19": " Also decides that Decode consumes nothing on a path that can still fail, that the length prefix is written and read in the same byte order, that ReadNext reads the transport only after ErrNeedMore, that an Encode error gates the transport write, and that every exit of ByteBuffer.WriteTo reporting written bytes has consumed them.",
- "C20": " Also decides that the container search is a lower bound on the sequence number, that Pop matches it exactly, and that the popped slot is offset before the offsetter is reset.",
+ "C18": " Also decides that the terminator is searched in a window overlapping earlier reads, that the handshake buffer is cut to the received bytes before it is parsed, that the hasher is reset before the key is hashed, and (R7, over the call graph with callback-parameter propagation) that nothing executing inside the RawConn.Control callback closes a connection. Also decides that the response loop stops strictly when the buffer is full and that the buffer is re-sliced to its capacity before reading.",
+ "C19": " Also decides that Decode consumes nothing on a path that can still fail, that the length prefix is written and read in the same byte order, that ReadNext reads the transport only after ErrNeedMore, that an Encode error gates the transport write, and that every exit of ByteBuffer.WriteTo reporting written bytes has consumed them. Also decides that Encode refuses len(frame) > MaxPayloadLength only.",
+ "C20": " Also decides that the container search is a lower bound on the sequence number, that Pop matches it exactly, and that the popped slot is offset before the offsetter is reset. Also decides that SlotSequencer.Reset clears offsetter, container and byte count and that the container's Reset empties it.",
 }
 for _pid, _extra in EXTRA.items():
     _t = CLAIMED[_pid]
